@@ -33,7 +33,7 @@ type ImplFn func(args [][]byte) (final [][]byte, out []byte)
 var impls = map[string]ImplFn{}
 var props = map[string]func(*Ctx){}
 
-func RegisterImpl(name string, f ImplFn) { impls[name] = f }
+func RegisterImpl(name string, f ImplFn)   { impls[name] = f }
 func RegisterProp(id string, f func(*Ctx)) { props[id] = f }
 
 type Ctx struct {
@@ -204,6 +204,26 @@ func main() {
 		os.Exit(2)
 	}
 	mode, what := os.Args[1], os.Args[2]
+	if mode == "isolated" {
+		// harness isolated <impl> <hex arg>...: one implementation call in a process of its own,
+		// for inputs whose failure mode is not a recoverable panic (a stack overflow ends the process)
+		f, ok := impls[what]
+		if !ok {
+			os.Exit(2)
+		}
+		var args [][]byte
+		for _, h := range os.Args[3:] {
+			b, err := hex.DecodeString(h)
+			if err != nil {
+				os.Exit(2)
+			}
+			args = append(args, b)
+		}
+		debug.SetMaxStack(512 << 20)
+		_, out := safeRun(f, args)
+		fmt.Println("RESULT " + hex.EncodeToString(out))
+		return
+	}
 	fs := flag.NewFlagSet("harness", flag.ExitOnError)
 	seed := fs.Int64("seed", 1, "seed")
 	tier := fs.String("tier", "quick", "tier")
